@@ -127,7 +127,9 @@ impl IOQueue {
     /// Drop all but last chunks
     pub fn clear_but_last(&mut self) {
         if self.chunks.len() > 1 {
-            self.chunks.drain(1..);
+            for chunk in self.chunks.drain(1..) {
+                self.length -= chunk.len();
+            }
         }
     }
 
@@ -180,7 +182,9 @@ impl Write for IOQueue {
     }
 
     fn flush(&mut self) -> std::io::Result<()> {
-        if !self.as_slice().is_empty() {
+        // open a new chunk only when the current one holds data, so repeated
+        // flushes never leave empty chunks in the middle of the queue
+        if self.chunks.back().is_some_and(|chunk| !chunk.is_empty()) {
             self.chunks.push_back(Default::default());
         }
         Ok(())
